@@ -752,6 +752,105 @@ fn show_bootargs(dump: &Dump) -> String {
     }
 }
 
+// ------------------------------------------------- canonical output, third group (`readMore`)
+
+/// strict UTF-16 decoding of the units before the first NUL (`std`, not `encoding_rs`)
+fn utf16_prefix(data: &[u16]) -> Option<String> {
+    let n = data.iter().position(|c| *c == 0).unwrap_or(data.len());
+    String::from_utf16(&data[..n]).ok()
+}
+
+/// `misc:` — the revision read, the sixteen scalar accessors, the time zone, the two build strings and
+/// the enabled XSTATE features, all through the public accessors; the strings are additionally looked
+/// up in the printer's text (`print` decodes them with its own `utf16_to_string`)
+fn show_misc(dump: &Dump) -> String {
+    let m = match dump.get_stream::<MinidumpMiscInfo>() {
+        Err(e) => return err_name(&e),
+        Ok(m) => m,
+    };
+    let mut text = meter::unmetered(|| Vec::with_capacity(16 * 1024));
+    let _ = m.print(&mut text);
+    let _ = m.process_create_time();
+    meter::unmetered(|| {
+        let text = String::from_utf8_lossy(&text);
+        let r = &m.raw;
+        let ver = match r {
+            RawMiscInfo::MiscInfo(_) => 1,
+            RawMiscInfo::MiscInfo2(_) => 2,
+            RawMiscInfo::MiscInfo3(_) => 3,
+            RawMiscInfo::MiscInfo4(_) => 4,
+            RawMiscInfo::MiscInfo5(_) => 5,
+        };
+        let simple: Vec<Option<u32>> = vec![
+            r.size_of_info().copied(),
+            r.flags1().copied(),
+            r.process_id().copied(),
+            r.process_create_time().copied(),
+            r.process_user_time().copied(),
+            r.process_kernel_time().copied(),
+            r.processor_max_mhz().copied(),
+            r.processor_current_mhz().copied(),
+            r.processor_mhz_limit().copied(),
+            r.processor_max_idle_state().copied(),
+            r.processor_current_idle_state().copied(),
+            r.process_integrity_level().copied(),
+            r.process_execute_flags().copied(),
+            r.protected_process().copied(),
+            r.time_zone_id().copied(),
+            r.process_cookie().copied(),
+        ];
+        let simple: Vec<String> = simple.iter().map(|v| v.map(|x| x.to_string()).unwrap_or_else(|| "-".into())).collect();
+        let mut bad = false;
+        let mut in_text = |label: &str, v: &Option<String>| {
+            let line = format!("{label}{}\n", v.clone().unwrap_or_else(|| "(invalid)".into()));
+            if !text.contains(&line) {
+                bad = true;
+            }
+        };
+        let date = |d: &md::SYSTEMTIME| {
+            [d.year, d.month, d.day_of_week, d.day, d.hour, d.minute, d.second, d.milliseconds].iter().map(|x| x.to_string()).collect::<Vec<_>>().join(".")
+        };
+        let tz = match r.time_zone() {
+            None => "-".to_string(),
+            Some(t) => {
+                let (sn, dn) = (utf16_prefix(&t.standard_name), utf16_prefix(&t.daylight_name));
+                in_text("    standard_name = ", &sn);
+                in_text("    daylight_name = ", &dn);
+                format!(
+                    "={}:{}:{}:{}:{}:{}:{}",
+                    t.bias as u32,
+                    opt_name(&sn),
+                    date(&t.standard_date),
+                    t.standard_bias as u32,
+                    opt_name(&dn),
+                    date(&t.daylight_date),
+                    t.daylight_bias as u32
+                )
+            }
+        };
+        let bs = r.build_string().and_then(|s| utf16_prefix(&s[..]));
+        let dbs = r.dbg_bld_str().and_then(|s| utf16_prefix(&s[..]));
+        in_text("  build_string                 = ", &bs);
+        in_text("  dbg_bld_str                  = ", &dbs);
+        let xs = match r.xstate_data() {
+            None => "-".to_string(),
+            Some(x) => {
+                let fs: Vec<String> = x.iter().map(|(i, f)| format!("{}:{}:{}", i, f.offset, f.size)).collect();
+                for (i, f) in x.iter() {
+                    if !text.contains(&format!("    feature {i:2} - ")) || !text.contains(&format!(":  offset {:4}, size {:4}\n", f.offset, f.size)) {
+                        bad = true;
+                    }
+                }
+                format!("={}", fs.join(","))
+            }
+        };
+        if bad {
+            return "MISMATCH:print-text".to_string();
+        }
+        format!("ok {}/{}/tz{}/bs{}/dbs{}/xs{}", ver, simple.join(","), tz, opt_name(&bs), opt_name(&dbs), xs)
+    })
+}
+
 // ------------------------------------------------------------------------------ phase B (sweep)
 
 fn sweep(dump: &Dump, o: &mut Out) {
@@ -1122,6 +1221,8 @@ fn run_case(all: &[u8], shared: &Arc<meter::Shared>) -> CaseOut {
             addx(&mut o, "asrt", "get_stream::<MinidumpAssertion> + accessors", &|| show_assertion(&dump));
             addx(&mut o, "mac", "get_stream::<MinidumpMacCrashInfo> + print", &|| show_mac(&dump));
             addx(&mut o, "boot", "get_stream::<MinidumpMacBootargs>", &|| show_bootargs(&dump));
+            // third group (`MdModel.DumpFull.readMore`)
+            addx(&mut o, "misc", "get_stream::<MinidumpMiscInfo> + accessors + print", &|| show_misc(&dump));
             let gm = o
                 .guard("get_memory", || match dump.get_memory() {
                     Some(UnifiedMemoryList::Memory64(_)) => "mem64",
